@@ -777,3 +777,49 @@ pub fn props(args: &[String]) {
     }
     println!("{}", json!({"tried": tried, "found": found}));
 }
+
+// ---------------------------------------------------------------------------------------------
+// search aid for C03 / C08 (only after an obligation broke): mean match fraction vs Jaccard index
+// ---------------------------------------------------------------------------------------------
+pub fn mc(args: &[String]) {
+    let seed = arg_u64(args, "--seed", 1);
+    let trials = arg_u64(args, "--trials", 1500) as usize;
+    std::panic::set_hook(Box::new(|_| {}));
+    let mut rng = SplitMix64::new(seed ^ 0x3C03);
+    let mut found: Vec<Value> = Vec::new();
+    // (|A \ B|, |A n B|, |B \ A|)
+    let families = [("overlap", 30usize, 20usize, 25usize), ("nested", 0, 10, 90), ("tiny", 1, 1, 1), ("disjoint-ish", 40, 1, 40)];
+    for (name, a_only, both, b_only) in families {
+        let j = both as f64 / (a_only + both + b_only) as f64;
+        for m in [4usize, 64, 512] {
+            let mut sums = [0.0f64; 4];
+            for _ in 0..trials {
+                let ids: Vec<u64> = (0..(a_only + both + b_only)).map(|_| rng.next_u64() >> 4).collect();
+                let a: Vec<u64> = ids[..a_only + both].to_vec();
+                let b: Vec<u64> = ids[a_only..].to_vec();
+                let sa = smh_sketch_of!(f64, FnvHasher, m, vec![a.clone()]);
+                let sb = smh_sketch_of!(f64, FnvHasher, m, vec![b.clone()]);
+                sums[0] += sa.iter().zip(sb.iter()).filter(|(x, y)| x == y).count() as f64 / m as f64;
+                let ta = smh2_sketch_of!(FnvHasher, m, vec![a.clone()]);
+                let tb = smh2_sketch_of!(FnvHasher, m, vec![b.clone()]);
+                sums[1] += ta.iter().zip(tb.iter()).filter(|(x, y)| x == y).count() as f64 / m as f64;
+                let (_, ua, _) = dens_views!(OptDensMinHash, f64, FnvHasher, m, &a, true);
+                let (_, ub, _) = dens_views!(OptDensMinHash, f64, FnvHasher, m, &b, true);
+                sums[2] += ua.iter().zip(ub.iter()).filter(|(x, y)| x == y).count() as f64 / m as f64;
+                let (_, va, _) = dens_views!(RevOptDensMinHash, f64, FnvHasher, m, &a, true);
+                let (_, vb, _) = dens_views!(RevOptDensMinHash, f64, FnvHasher, m, &b, true);
+                sums[3] += va.iter().zip(vb.iter()).filter(|(x, y)| x == y).count() as f64 / m as f64;
+            }
+            for (i, nm) in ["SuperMinHash<f64>", "SuperMinHash2", "OptDensMinHash", "RevOptDensMinHash"].iter().enumerate() {
+                let mean = sums[i] / trials as f64;
+                // plain MinHash variance as scale for the first two; one trial's variance bounded by j(1-j) for the densified ones
+                let var = if i < 2 { j * (1. - j) / m as f64 } else { j * (1. - j) };
+                let z = (mean - j) / (var / trials as f64).sqrt().max(1e-12);
+                if z.abs() > 6. {
+                    found.push(json!({"sketcher": nm, "family": name, "m": m, "j": j, "mean": mean, "z": z, "trials": trials, "seed": seed}));
+                }
+            }
+        }
+    }
+    println!("{}", json!({"found": found}));
+}
